@@ -169,6 +169,10 @@ class EnvUnderTest:
                         self.problems.append('GymObs: not the representation of the inner observation')
                     if not self.gym.observation_space.contains(rep):
                         self.problems.append('GymObs: outside the advertised observation space')
+                if op in ('OuterObs', 'GymObs'):
+                    # the caller may do what it likes with the arrays it was given
+                    for arr in rep.values():
+                        arr += 1
                 if miss:
                     self._mirror_obs()
                 if not (ob == self.m_obs):
@@ -184,6 +188,8 @@ class EnvUnderTest:
                     self.problems.append(f'{op}: not the representation of the inner state')
                 if op == 'GymState' and not self.gym.state_space.contains(rep):
                     self.problems.append('GymState: outside the advertised state space')
+                for arr in rep.values():
+                    arr += 1
             elif op == 'FuncReset':
                 a, b = self.env.functional_reset(), self.mirror.functional_reset()
                 if not (a == b):
